@@ -34,7 +34,8 @@ tvars == <<l, bad, lost>>
 \* JSON arrays arrive as sequences; the core wants sets of patterns.
 Cfg(j) == [ignQ |-> ToSet(j.ignQ), ignS |-> ToSet(j.ignS), client |-> j.client,
            flagQ |-> j.flagQ, flagS |-> j.flagS, anon |-> j.anon,
-           qlogOn |-> j.qlogOn, statsOn |-> j.statsOn, refuseAny |-> j.refuseAny]
+           qlogOn |-> j.qlogOn, statsOn |-> j.statsOn, refuseAny |-> j.refuseAny,
+           extra |-> ToSet(j.extra)]
 
 \* An observed address: the embedded vector plus "rest" = 1 when any of the
 \* remaining real low bits is set.
